@@ -84,10 +84,25 @@ def _ethclass(raw):
           0x8847: "mpls", 0x8848: "mpls"}.get(t, "other")
 
 
+def _lib_frame(e):
+  """innermost frame inside pox/lib/packet (the parser at fault), else the innermost repository frame"""
+  import os
+  from ..runner import innermost_frames, REPO_ROOT
+  pk = os.path.join(REPO_ROOT, "pox", "lib", "packet") + os.sep
+  frames = innermost_frames(e)
+  for fn, func, _ in reversed(frames):
+    if fn.startswith(pk):
+      return "%s:%s" % (os.path.relpath(fn, REPO_ROOT), func)
+  return None
+
+
 def _exc(out, e, phase, **extra):
   import traceback
-  out.violations.append({"key": exc_key(e, clause=phase, **extra),
-                         "msg": "%s raised %r\n%s" % (phase, e, "".join(traceback.format_exception(e))[-1200:])})
+  k = exc_key(e, clause=phase, **extra)
+  w = _lib_frame(e)
+  if w is not None:
+    k["where"] = w
+  out.violations.append({"key": k, "msg": "%s raised %r\n%s" % (phase, e, "".join(traceback.format_exception(e))[-1200:])})
 
 
 def run_case(case):
@@ -169,16 +184,16 @@ def run_case(case):
   try:
     str(p)
   except Exception as e:
-    _exc(out, e, "str")
+    _exc(out, e, "print")
   for l in layers[1:]:
     try:
       str(l)
     except Exception as e:
-      _exc(out, e, "str-layer")
+      _exc(out, e, "print")
   try:
     p.dump()
   except Exception as e:
-    _exc(out, e, "dump")
+    _exc(out, e, "print")
   try:
     b = p.pack()
     if not isinstance(b, bytes):
